@@ -185,3 +185,20 @@ Definition SyncP (c : cfg) (s : scr) (t : term) : Prop :=
   (s_buf s <> [] -> forall y row, nthz (s_buf s) y = Some row ->
        (y <= ru -> row_shows_partial c row (get_row (t_grid t) y)) /\ (ru < y -> is_blank row = true)).
 
+
+(* histories in partial display mode: draws, clear(), frames abandoned by a SIGWINCH that arrives while
+   the frame is produced (followed by the acknowledgement of the resize; the terminal keeps its size).
+   [last] = the canvas drawn by the last event, if that event was a completed draw *)
+Inductive ReachP (c : cfg) : scr -> term -> option canvas -> Prop :=
+  | RP_start cols rows : 1 <= cols -> 1 <= rows -> ReachP c (init_scr true) (new_term cols rows) None
+  | RP_draw s t last content cursor toks s' :
+      ReachP c s t last ->
+      canvas_ok c (t_cols t) (t_rows t) content -> cursor_ok (t_cols t) (t_rows t) cursor ->
+      draw_screen c s (t_cols t) (t_rows t) content cursor false false = Ok (toks, s') ->
+      ReachP c s' (run t toks) (Some (content, cursor))
+  | RP_clear s t last : ReachP c s t last -> ReachP c (clear s) t None
+  | RP_abandoned s t last content cursor toks s' :
+      ReachP c s t last ->
+      canvas_ok c (t_cols t) (t_rows t) content -> cursor_ok (t_cols t) (t_rows t) cursor ->
+      draw_screen c s (t_cols t) (t_rows t) content cursor false true = Ok (toks, s') ->
+      ReachP c (ack s') (run t toks) None.
